@@ -209,7 +209,10 @@ CLAIMED = {
           "all five routes (sizes, shape, data/from_data, astropy quantities in kHz/ms/MHz/GHz, backend parameters) and "
           "every attribute / conversion is placed on TLC's grid with exact Fractions; the opposite-orientation twin must "
           "have the same axes and produce the same injected data; ts_ext must follow the time axis after it has been "
-          "moved in place (what Cadence.add_signal does) and after it has been put back."),
+          "moved in place (what Cadence.add_signal does) and after it has been put back. Leg T: every frame constructed in "
+          "recorded frame lives (all construction routes, derived frames, copies, frames loaded from files) and in the "
+          "repository's own tests is validated against FrameTrace.tla's C05 clauses (axes match the shape; frequency axis "
+          "strictly increasing on the uniform df grid with fch1 at the end its orientation says; ts = i*dt)."),
     note=("Trusted: TLC, python Fractions; tolerance max(1e-6 channel, 4 ulp of the absolute frequency) for frequencies, "
           "4 ulp for times, 1e-14 relative for resolutions; injected-data equality of twins at 1e-9 + 256 ulp(f)/df."),
     technique="TLA+ model (TLC exhaustive) + spec-generated frames instantiated on the implementation + trace validation of every frame constructed in recorded executions (incl. the repository's tests)",
